@@ -1363,7 +1363,7 @@ func (s *Store) processHandoff(ctx context.Context, nodeID uint64, lease Lease) 
 
 	select {
 	case <-ctx.Done():
-		return context.Cause(ctx)
+		return contextCause(ctx)
 	case sub.HandoffCh() <- lease.ID():
 		return nil
 	}
